@@ -497,3 +497,14 @@ K('C10', 'zero-cliques-skip-attributewise', [(INF, _ZC_OLD, "            measure
 T('C10', 'division-cleared-by-denominator', [(FACT, "        vals = np.divide(self.values, tmp.values, where=tmp.values>0)\n        vals[tmp.values<=0] = 0.0", "        with np.errstate(divide='ignore', invalid='ignore'):\n            vals = self.values / tmp.values\n        vals[tmp.values<=0] = 0.0")])
 K('C10', 'division-cleared-by-isinf', [(FACT, "        vals = np.divide(self.values, tmp.values, where=tmp.values>0)\n        vals[tmp.values<=0] = 0.0", "        with np.errstate(divide='ignore', invalid='ignore'):\n            vals = self.values / tmp.values\n        vals[np.isinf(vals)] = 0.0")], 'division-guard')
 K('C10', 'division-not-cleared', [(FACT, "        vals[tmp.values<=0] = 0.0\n", "")], 'division-guard')
+
+# ---- C18 near-miss round
+_POLISH = "        for _ in range(1000):\n            if model.primal_feasibility(mu) < 1.0:\n                break\n            mu = model.belief_propagation(theta)\n            if callback is not None:\n                callback(mu)\n        return l, theta, mu\n"
+_HELPER = "\n    def _restore_feasibility(self, theta, mu, callback):\n        model = self.model\n        for _ in range(1000):\n            if model.primal_feasibility(mu) < 1.0:\n                break\n            mu = model.belief_propagation(theta)\n            if callback is not None:\n                callback(mu)\n        return mu\n"
+T('C18', 'feasibility-helper-result-used', [(LI, _POLISH, "        mu = self._restore_feasibility(theta, mu, callback)\n        return l, theta, mu\n" + _HELPER)])
+K('C18', 'feasibility-helper-result-dropped', [(LI, _POLISH, "        self._restore_feasibility(theta, mu, callback)\n        return l, theta, mu\n" + _HELPER)], 'polished-result')
+K('C18', 'outer-regions-nonstrict', [('src/mbi/region_graph.py', "            for r in cliques:\n                if not any(set(r) < set(s) for s in cliques):", "            for i, r in enumerate(cliques):\n                others = [s for j, s in enumerate(cliques) if j != i]\n                if not any(set(r) <= set(s) for s in others):")], 'outer-regions')
+T('C18', 'outer-regions-strict-dedup', [('src/mbi/region_graph.py', "            for r in cliques:\n                if not any(set(r) < set(s) for s in cliques):", "            for i, r in enumerate(cliques):\n                others = [s for j, s in enumerate(cliques) if j != i]\n                if r not in self.cliques and not any(set(r) < set(s) for s in others):")])
+# ---- C02 near-miss round
+T('C02', 'krondot-normaliser-by-elimination', [(GM, "        for attr, Q in zip(elim, matrices):", "        Z = variable_elimination(factors, elim).sum()\n        for attr, Q in zip(elim, matrices):"), (GM, "        return result.datavector(flatten=False) * self.total / np.exp(logZ)", "        return result.datavector(flatten=False) * self.total / Z")])
+K('C02', 'krondot-normaliser-from-answers', [(GM, "        result = result.transpose(['%s-answer'%a for a in elim])\n        return result.datavector(flatten=False) * self.total / np.exp(logZ)", "        result = result.transpose(['%s-answer'%a for a in elim])\n        Z = result.sum()\n        return result.datavector(flatten=False) * self.total / Z")], 've-equations')
